@@ -48,7 +48,7 @@ Init ==
   /\ sent = [s \in 1..3 |-> 0]
   /\ psrc \in {x \in PanicSrcs : x <= m.k}
   /\ sync \in {x \in SyncEnds : x.s <= m.k}
-  /\ tail \in (IF m.op = "WindowWhen" THEN {"none"} ELSE Tails)
+  /\ tail \in (IF m.op \in {"WindowWhen", "GroupBy"} THEN {"none"} ELSE Tails)
 
 SyncNotif == IF sync.k = "E" THEN E(sync.s, SubCtx \cup {TMark(sync.s)}) ELSE C(SubCtx \cup {TMark(sync.s)})
 
@@ -91,9 +91,10 @@ Unsub ==
   /\ Cuts /\ phase = "run" /\ ~unsub /\ Len(h) <= MaxSteps
   /\ LET s2 == [st EXCEPT !.done = TRUE, !.torn = @ \cup (st.live \ st.ended), !.live = {}] IN
      /\ st' = s2
-     /\ h' = Append(h, [do |-> "unsub", src |-> 0, n |-> C({}), exp |-> Obs(<<>>, TRUE, s2)])
+     /\ h' = Append(h, [do |-> "unsub", src |-> 0, n |-> C({}), exp |-> Obs(IF closed THEN <<>> ELSE UnsubOutF(m, st), TRUE, s2)])
+     /\ log' = log \o (IF closed THEN <<>> ELSE UnsubOutF(m, st))
   /\ unsub' = TRUE /\ closed' = TRUE
-  /\ UNCHANGED <<m, phase, log, sent, psrc, sync, tail>>
+  /\ UNCHANGED <<m, phase, sent, psrc, sync, tail>>
 
 Notifs(s) == {N(10 * s + sent[s], SubCtx \cup {Mark(s, sent[s])}), E(s, SubCtx \cup {TMark(s)}), C(SubCtx \cup {TMark(s)})}
 
